@@ -233,3 +233,55 @@ def check(prog, run):
     # ---- S5 executor memo tables live across all events of one subscription (shared with C04.H2)
     from . import c04
     c04.check_memo_keys(prog, run, "S5")
+
+    # ---- S6 the executor runs with the coerced variables
+    check_coerced_variables(prog, run, "S6", [sub])
+
+
+def check_coerced_variables(prog, run, rule_id, entries):
+    """The variables handed to the executor are coerce_variable_values(schema, operation, ...) on every execution."""
+    from .. import boolx
+    r = run.rule(rule_id, "%s: on every execution that constructs the executor, the variables it is given (third positional "
+                          "argument / `variables=`) are — path value, local aliases followed — the result of "
+                          "coerce_variable_values(schema, operation, <request variables>): declared variable defaults are applied "
+                          "there, so a request without variables must go through it as well (no shortcut to {} or to the raw mapping)"
+                 % ", ".join(e.qualname for e in entries), len(entries))
+    for f in entries:
+        a = f.node.args
+        params = [x.arg for x in a.posonlyargs + a.args + a.kwonlyargs]
+        sch, doc = params[0], params[1]
+        try:
+            _ev, exits = boolx.walk_under(f.node, lambda t: None)
+        except ValueError as e:
+            raise AnalysisError("C17.%s: %s" % (rule_id, e))
+        n_ctor = 0
+        bad = {}
+        for kind, st, env in exits:
+            stmts = env.get(boolx.STMTS, ())
+            for c in env.get(boolx.CALLS, ()):
+                if not (len(c.args) >= 2 and isinstance(c.args[0], ast.Name) and c.args[0].id == sch
+                        and isinstance(c.args[1], ast.Name) and c.args[1].id == doc and isinstance(c.func, ast.Name) and c.func.id in params):
+                    continue
+                holder = c
+                while holder is not None and not isinstance(holder, ast.stmt):
+                    holder = getattr(holder, "_parent", None)
+                arg = c.args[2] if len(c.args) >= 3 else next((k.value for k in c.keywords if k.arg == "variables"), None)
+                n_ctor += 1
+                if arg is None:
+                    bad.setdefault("<none>", c)
+                    continue
+                v = boolx.path_subst(arg, boolx.path_env(stmts, holder))
+                ok = isinstance(v, ast.Call) and isinstance(v.func, ast.Name) and v.func.id == "coerce_variable_values" and len(v.args) >= 2 \
+                    and isinstance(v.args[0], ast.Name) and v.args[0].id == sch
+                if ok:
+                    rr = prog.resolve_name(f.module, "coerce_variable_values")
+                    ok = bool(rr) and rr[0] == "func" and rr[1].module.name == "py_gql.utilities.coerce_value"
+                if not ok:
+                    bad.setdefault(" ".join(ast.unparse(v).split())[:90], c)
+        r.instance("%s: executor constructed on %d executions" % (f.qualname, n_ctor))
+        if not n_ctor:
+            raise AnalysisError("C17.%s: executor construction not found in %s" % (rule_id, f.qualname))
+        for t, c in sorted(bad.items()):
+            run.report(r, "%s:%s:executor-variables" % (f.module.name, f.qualname), f.where(c),
+                       "%s can construct the executor with variables `%s`, which is not the result of coerce_variable_values(...): "
+                       "declared defaults are not applied (and required variables not demanded) on that execution" % (f.qualname, t))
